@@ -45,6 +45,15 @@ CHECKS = {
  "C17": (True, "exploration", "deterministic simulation: host callbacks as seams; twin run with/without inert extensions; exactly-once over the handler invocation log; handler fault injection",
    "The simulated host implements every extension point. Twin sessions with and without inert extensions (never-matching regex customs, stream parsers that read ahead and decline, pass-through load/store hooks, identity detail rewriters) must agree in every outcome. For an acting operator the invocation log is checked against the executed custom-dice instructions (exactly once), the groups against the source, the returned value for use by copy, and injected handler faults (error, nil, stream parser error) must surface as errors.",
    "Callback behaviours stay within the documented contracts.", "DESIGN.md §4 C17", ENGINE_SESSION),
+ "C08": (True, "exploration", "deterministic simulation: branch outcomes forced by the simulator at every conditional jump (buggify) with VM-level invariant monitors at every instruction",
+   "Run-time truth of a branch condition is nondeterminism the simulator owns: the step hook overwrites the condition before each jne/je/je.dup according to decision vectors (natural, random, and all truthy/falsy vectors up to a length bound), so untaken branches and nested bodies of functions/computed values are executed; monitors check operand presence, jump patching and bounds, block/hole balance per instruction, roll/annotation state, unknown opcodes and internal-error results. Paths are sampled, not all enumerated (a static verifier would be a different technique).",
+   "The monitor's operand table is written from the VM's dispatch loop. Code that is malformed but structurally balanced (e.g. instructions left by an abandoned alternative that only change the value) is not detectable by these invariants.", "DESIGN.md §4 C08", ENGINE_SESSION),
+ "C14": (True, "exploration", "deterministic simulation: observation events injected at arbitrary points of a session (twin run); dice ledger segmented per instruction against annotations",
+   "Decides: observing is idempotent and changes nothing (twin sessions with/without bursts of read-only API calls after each command, incl. after Parse and after failed runs); each dice annotation's value equals the rulebook total of the faces the ledger recorded while that instruction ran (real streams and forced faces). Input-driven and stated as such: for generated + - * ( ) arithmetic over dice terms with blanks, tabs, line breaks and multi-byte identifiers, the process text with its [..] groups removed evaluates to the reported result.",
+   "The 'text is the source with rolls spliced in' clause is only sampled on generated arithmetic.", "DESIGN.md §4 C14", ENGINE_SESSION),
+ "C16": (True, "exploration", "deterministic simulation: histories on one VM (macro / st line / failing input, then macro-free probe) with instruction-level observation",
+   "Decides the history clauses: a macro or an st-flag push inside one input never alters Context.Config (every flag, limit and callback compared after every command) and never changes what a later macro-free input compiles to or executes: no instruction of a family that is off, in the main listing or in nested bodies, under all family settings x DisableStmts/NDice/BitwiseOp.",
+   "NOT claimed: that no spelling re-opens a feature; only generated spellings and identifier/number mixes are searched.", "DESIGN.md §4 C16", ENGINE_SESSION),
 }
 
 NA = {
